@@ -18,7 +18,7 @@ from vlib import monitors as M
 ID = "C08"
 LEVEL = "exploration"
 TECHNIQUE = "fresh-rebuild differential over edit histories; conservation + unique-value-per-key oracle under a controlled line-level scheduler"
-RULE = ("A: alphabet of 16 operations (three evaluation routes: evaluate_equation, Element.plot, memoize/element call) (3 converter equations, 2 flow equations, 2 stock equations, initial value number/number/constant, "
+RULE = ("A: alphabet of 20 operations (incl. a member of an arrayed constant re-assigned after an aggregate over it was defined, the constant behind the stock's initial value, a named lookup's points replaced / moved in place followed by reset_cache) (three evaluation routes: evaluate_equation, Element.plot, memoize/element call) (3 converter equations, 2 flow equations, 2 stock equations, initial value number/number/constant, "
         "2 constant values, reset_cache, partial evaluation) - ALL sequences of length<=3 (quick) / <=4 (thorough) + random length 5-30, "
         "each in three observation modes (compare after every op through evaluate_equation / through the memo route, or only at the end), plus scenario double-runs with different equation lists, and a stochastic model run five times with changing equation lists (SdSimulation.start and bptk.run_scenarios): repeated series identical, identities hold over the union of the reported frames. "
         "B: 4 requested-equation lists x all schedules with <=1 preemption (quick) / <=2 (thorough) at LINE granularity inside Model.memoize, "
@@ -29,7 +29,8 @@ ASSUMPTIONS = ["preemption only at line boundaries of Model.memoize; <=3 worker 
 REQUIRED = {"stochastic_reruns": 40, "edit_schedules_with_preemption": 100, "histories": 500, "grid_comparisons": 5000, "schedules": 100, "schedules_with_double_miss": 5, "scenario_reruns": 20}
 BUDGET_S = {"quick": 100, "thorough": 1500}
 
-OPS = ["v0", "v1", "v2", "f0", "f1", "s0", "s1", "i5", "i100", "ic", "c2", "c7", "reset", "peek", "peek_plot", "peek_memo"]
+OPS = ["v0", "v1", "v2", "f0", "f1", "s0", "s1", "i5", "i100", "ic", "c2", "c7", "reset", "peek", "peek_plot", "peek_memo", "k80", "pA+reset", "pI+reset", "a1"]
+PTS = [[[0.0, 1.0], [2.0, 3.0], [6.0, 0.5]], [[0.0, 4.0], [3.0, 0.0], [6.0, 2.0]]]
 GRID = [0.0, 1.0, 2.0, 3.0, 4.0]
 EDITS = ["c7", "v1", "v2", "f1", "s1", "i100", "reset", "c7+reset"]
 EVALS = ["y@3", "f@2+v@1", "plot-y"]
@@ -74,7 +75,8 @@ def worker_init():
 
 # ---------------------------------------------------------------- part A
 def defs0():
-    return dict(v=0, f=0, s=0, init=("num", 1.0), c=3.0)
+    import copy
+    return dict(v=0, f=0, s=0, init=("num", 1.0), c=3.0, c2=50.0, pts=copy.deepcopy(PTS[0]), a1=0.5)
 
 
 def build(defs):
@@ -83,8 +85,17 @@ def build(defs):
     m = Model(starttime=0.0, stoptime=4.0, dt=1.0, name="hist")
     c, c2 = m.constant("c"), m.constant("c2")
     v, f, s, y = m.converter("v"), m.flow("f"), m.stock("s"), m.converter("y")
-    c2.equation = 50.0
-    y.equation = s * 2.0          # a dependant of the stock
+    import copy
+    c2.equation = defs.get("c2", 50.0)
+    m.points["curve"] = copy.deepcopy(defs.get("pts", PTS[0]))
+    w = m.converter("w")
+    w.equation = sd.lookup(sd.time(), "curve")          # a named lookup
+    wts = m.constant("wts")
+    wts.setup_vector(2, [1.0, 0.5])
+    wts[1] = defs.get("a1", 0.5)
+    tot = m.converter("tot")
+    tot.equation = wts.arr_sum()   # an aggregate over an arrayed constant, defined before any later edit of a member
+    y.equation = s * 2.0 + w + tot      # a dependant of the stock, of the lookup and of the aggregate
     apply_defs(m, defs, all_=True)
     return m
 
@@ -102,12 +113,14 @@ def apply_defs(m, defs, all_=False, only=None):
         s.equation = [f, f - c][defs["s"]]
     if all_ or only == "init":
         s.initial_value = defs["init"][1] if defs["init"][0] == "num" else c2
+    if only == "c2":
+        c2.equation = defs["c2"]
 
 
 def snapshot(m, route=0):
     if route == 1:   # the route Element.plot uses
-        return {n: [float(m.memoize(n, t)) for t in GRID] for n in ("c", "v", "f", "s", "y")}
-    return {n: [float(m.evaluate_equation(n, t)) for t in GRID] for n in ("c", "v", "f", "s", "y")}
+        return {n: [float(m.memoize(n, t)) for t in GRID] for n in ("c", "v", "f", "s", "y", "w", "tot")}
+    return {n: [float(m.evaluate_equation(n, t)) for t in GRID] for n in ("c", "v", "f", "s", "y", "w", "tot")}
 
 
 def run_history(seq, every, counters):
@@ -129,6 +142,19 @@ def run_history(seq, every, counters):
             defs["init"] = ("const", None); apply_defs(m, defs, only="init"); edited = True
         elif name in ("c2", "c7"):
             defs["c"] = 2.0 if name == "c2" else 7.0; apply_defs(m, defs, only="c"); edited = True
+        elif name == "a1":
+            # a member of the arrayed constant re-assigned after the aggregate over it was defined
+            defs["a1"] = 7.5 if defs.get("a1") != 7.5 else 0.5; m.constants["wts"][1] = defs["a1"]; edited = True
+        elif name == "k80":
+            # the constant that may be the stock's initial value
+            defs["c2"] = 80.0 if defs.get("c2") != 80.0 else 50.0; apply_defs(m, defs, only="c2"); edited = True
+        elif name == "pA+reset":
+            # the lookup's points replaced by a new list, then the cache reset (points edits alone are not cache edits)
+            import copy
+            defs["pts"] = copy.deepcopy(PTS[1] if defs["pts"] != PTS[1] else PTS[0]); m.points["curve"] = copy.deepcopy(defs["pts"]); m.reset_cache(); edited = True
+        elif name == "pI+reset":
+            # one point moved in place (the list object stays), then the cache reset
+            defs["pts"][1][1] = defs["pts"][1][1] + 2.0; m.points["curve"][1][1] = defs["pts"][1][1]; m.reset_cache(); edited = True
         elif name == "reset":
             m.reset_cache(); edited = False; cached = False
         elif name == "peek_plot":  # evaluation through the plotting route
@@ -142,7 +168,7 @@ def run_history(seq, every, counters):
         if every or pos == len(seq) - 1:
             got = snapshot(m, route=1 if every == 2 else 0)
             exp = snapshot(build(defs))
-            counters["grid_comparisons"] = counters.get("grid_comparisons", 0) + 25
+            counters["grid_comparisons"] = counters.get("grid_comparisons", 0) + 30
             cached = True
             if got != exp:
                 bad = next(n for n in got if got[n] != exp[n])
@@ -154,20 +180,40 @@ def run_scenario_case(seed, counters):
     """bptk level: repeated runs, different equation lists, cache reset."""
     from BPTK_Py import bptk
     rng = random.Random(seed)
-    defs = dict(v=rng.randrange(3), f=rng.randrange(2), s=rng.randrange(2), init=("num", rng.choice([1.0, 5.0])), c=rng.choice([2.0, 3.0, 7.0]))
+    import copy
+    defs = dict(v=rng.randrange(3), f=rng.randrange(2), s=rng.randrange(2), init=("num", rng.choice([1.0, 5.0])), c=rng.choice([2.0, 3.0, 7.0]), c2=50.0, pts=copy.deepcopy(PTS[0]))
     m = build(defs)
     b = bptk()
     try:
         b.register_model(m, scenario_manager="smH", scenario={"base": {}, "alt": {"constants": {"c": 9.0}}})
         exp = {}
+        ptsnow = {}
         for sc, cval in (("base", defs["c"]), ("alt", 9.0)):
             exp[sc] = snapshot(build(dict(defs, c=cval)))
         lists = [["s"], ["s", "f"], ["f", "v", "c"], ["y", "s", "v"], ["c"], ["v", "y"]]
-        for i in range(6):
+        lists = lists + [["w", "y"], ["y", "w", "s"]]
+        cvals = {"base": defs["c"], "alt": 9.0}
+        for i in range(8):
             eqs = rng.choice(lists)
             sc = rng.choice(["base", "alt"])
-            if rng.random() < 0.3:
+            r = rng.random()
+            if r < 0.25:
                 b.reset_scenario_cache(scenario_manager="smH", scenario=sc)
+            elif r < 0.5:
+                # the way the REST /run handler applies settings: reset the scenario's cache, then write points / constants into the scenario
+                import copy
+                scobj = b.scenario_manager_factory.get_scenario("smH", sc)
+                b.reset_scenario_cache(scenario_manager="smH", scenario=sc)
+                if rng.random() < 0.6:
+                    pts = copy.deepcopy(rng.choice(PTS + [[[0.0, 2.0], [6.0, 2.0]]]))
+                    scobj.points["curve"] = pts
+                    exp[sc] = snapshot(build(dict(defs, c=cvals[sc], pts=pts)))
+                    ptsnow[sc] = pts
+                else:
+                    cvals[sc] = rng.choice([1.0, 4.0, 6.5])
+                    scobj.constants["c"] = cvals[sc]
+                    exp[sc] = snapshot(build(dict(defs, c=cvals[sc], pts=ptsnow.get(sc, defs["pts"]))))
+                counters["scenario_setting_changes"] = counters.get("scenario_setting_changes", 0) + 1
             df = b.run_scenarios(scenarios=[sc], scenario_managers=["smH"], equations=list(eqs), return_format="df")
             df2 = b.run_scenarios(scenarios=[sc], scenario_managers=["smH"], equations=list(eqs), return_format="df")
             counters["scenario_reruns"] = counters.get("scenario_reruns", 0) + 1
@@ -446,8 +492,10 @@ def run_case(case):
         seqs = [case["seq"]] if k == "random" else \
             [[case["first"]] + list(t) for L in range(case["L"]) for t in itertools.product(range(len(OPS)), repeat=L)]
         nts = []
-        for seq in seqs:
-            for every in (True, False, 2):
+        for si, seq in enumerate(seqs):
+            # three observation modes; in the quick tier the longest sequences alternate between the two per-operation modes
+            modes = (True, False, 2) if (k == "random" or case["L"] > 3 or len(seq) < case["L"]) else ((True, False) if si % 2 else (2, False))
+            for every in modes:
                 counters["histories"] = counters.get("histories", 0) + 1
                 w, interesting = run_history(seq, every, counters)
                 if interesting:
